@@ -210,6 +210,20 @@ func contractMentions(c *FuncContract, id string) bool {
 	return false
 }
 
+// bodyBlocksMention: a `closure <func> anchor … option body-only` block of the function (annotations of a literal that is
+// verified at its creation site, inside the function's unit) carries a clause of the property.
+func bodyBlocksMention(L *Loaded, c *FuncContract, id string) bool {
+	for _, b := range L.contracts.order {
+		if b.kind != "closure" || b.pkg != c.pkg || b.key != c.key {
+			continue
+		}
+		if _, bodyOnly := b.opts["body-only"]; bodyOnly && contractMentions(b, id) {
+			return true
+		}
+	}
+	return false
+}
+
 // suffixMentions: the unit generates obligations that an `obligation-property` directive attributes to id
 // (currently: units with function literals verified at their creation site).
 func suffixMentions(L *Loaded, c *FuncContract, id string) bool {
@@ -233,7 +247,7 @@ func jobsFor(L *Loaded, id string, opt runOpts) ([]unitJob, []*UnitResult) {
 		if c.kind != "func" || c.trusted || c.opts["impl-only"] == "true" {
 			continue
 		}
-		if id != "" && !contractMentions(c, id) && !suffixMentions(L, c, id) {
+		if id != "" && !contractMentions(c, id) && !suffixMentions(L, c, id) && !bodyBlocksMention(L, c, id) {
 			continue
 		}
 		fns := L.funcsFor(c)
